@@ -107,7 +107,8 @@ def oracle(p: dict, En: float):
         return affine(M, d - M @ d)          # v -> M (v - d) + d
     if c in ("Dipole", "RBend"):
         if p["L"] == 0.0:
-            return None                       # zero-length bend: no flow defined; see C09 for angle = 0
+            # zero-length bend = thin horizontal kick of the set angle (like a corrector), rotated by the tilt
+            return affine(np.eye(6), rot6(-p["tilt"]) @ np.array([0, p["angle"], 0, 0, 0, 0.0]))
         h = p["angle"] / p["L"]
         e1, e2 = p["e1"], p["e2"]
         if c == "RBend":
